@@ -3,6 +3,7 @@ package main
 import (
 	"fmt"
 	"go/token"
+	"go/types"
 	"strings"
 
 	"golang.org/x/tools/go/ssa"
@@ -15,6 +16,7 @@ func init() {
 			"(rpc-one-view) storage-proof RPC handlers (v8/v9/v10) take both tries, all proofs and the returned roots from the one HeadState() value and reject unsupported blocks before generating proofs. (hash-family) outside the constructors no function of the trie packages names a hash family: proof nodes are hashed with the function the trie was built with. Not decided: completeness (honest proofs verify), absence-proof divergence cases, hash correctness — these are value-level."
 		c10HashFamily(c)
 		c10ContentHashPure(c)
+		c10RangeUnsetDirty(c)
 		for _, fr := range []fref{{"core/trie", "", "VerifyProof"}, {"core/trie2", "", "VerifyProof"}} {
 			f := p.Func(fr.pkg, fr.recv, fr.name)
 			if f == nil {
@@ -618,4 +620,121 @@ func c10HashMatched(in ssa.Instruction) bool {
 		}
 	}
 	return false
+}
+
+// c10RangeUnsetDirty: the range-proof verifier cuts the parts of the proof tree that lie inside the proven range and then
+// recomputes the root. The hasher stops at the first node that still carries a cached hash — and proof nodes come from the
+// prover with their hashes cached — so every node the cutter DESCENDS THROUGH must be marked dirty before it does: a node
+// that keeps its cached hash vouches for its whole subtree, and keys removed below it (and omitted from the response) go
+// unnoticed (seeded change C10-J: the edge-node arm of `unset`). Decided on the two walkers of core/trie2: in `unset` every
+// recursive call with node X as the new parent, and in `unsetInternal` every loop continuation out of the arm of X, is
+// dominated by the store X.Flags = NewNodeFlag().
+func c10RangeUnsetDirty(c *Ctx) {
+	p := c.P
+	isInner := func(t types.Type) bool {
+		ts := t.String()
+		return strings.HasSuffix(ts, "trienode.EdgeNode") || strings.HasSuffix(ts, "trienode.BinaryNode")
+	}
+	flagStores := func(fn *ssa.Function, x ssa.Value) []ssa.Instruction {
+		var out []ssa.Instruction
+		allInstrsOne(fn, func(in ssa.Instruction) {
+			st, ok := in.(*ssa.Store)
+			if !ok {
+				return
+			}
+			fa, ok := st.Addr.(*ssa.FieldAddr)
+			if !ok || fa.X != x || fieldName(fa.X.Type(), fa.Field) != "Flags" {
+				return
+			}
+			if strings.Contains(termF(st.Val), "NewNodeFlag()") {
+				out = append(out, in)
+			}
+		})
+		return out
+	}
+	asserted := func(fn *ssa.Function) []ssa.Value {
+		var out []ssa.Value
+		allInstrsOne(fn, func(in ssa.Instruction) {
+			ta, ok := in.(*ssa.TypeAssert)
+			if !ok || !isInner(ta.AssertedType) {
+				return
+			}
+			if ta.CommaOk {
+				if refs := ta.Referrers(); refs != nil {
+					for _, r := range *refs {
+						if ex, isEx := r.(*ssa.Extract); isEx && ex.Index == 0 {
+							out = append(out, ex)
+						}
+					}
+				}
+			} else {
+				out = append(out, ta)
+			}
+		})
+		return out
+	}
+	n := 0
+	if f := p.Func("core/trie2", "", "unset"); f != nil {
+		for _, x := range asserted(f) {
+			fs := flagStores(f, x)
+			for _, s := range sitesOf(f) {
+				if s.Callee != f || len(s.Args()) == 0 {
+					continue
+				}
+				a := s.Args()[0]
+				if mi, ok := a.(*ssa.MakeInterface); ok {
+					a = mi.X
+				}
+				if a != x {
+					continue
+				}
+				n++
+				ok := false
+				for _, st := range fs {
+					if dominatesInstr(st, s.Instr) {
+						ok = true
+					}
+				}
+				c.check(ok, "range-unset-dirty", "unset: descent below "+typeShort(x.Type()), p.Pos(s.Pos()), "the node is marked dirty before the cutter descends through it", "the cutter descends through this node without resetting its Flags: its cached (prover-supplied) hash then stands for the whole subtree, and keys cut below it are not reflected in the recomputed root")
+			}
+		}
+	} else {
+		c.und("range-unset-dirty", "core/trie2.unset", "", "anchor not found")
+	}
+	if f := p.Func("core/trie2", "", "unsetInternal"); f != nil {
+		for _, x := range asserted(f) {
+			// blocks of this arm that jump back to a loop header: predecessors (dominated by the assert) of a block that is on a
+			// cycle and dominates them
+			var xb *ssa.BasicBlock
+			if in, ok := x.(ssa.Instruction); ok {
+				xb = in.Block()
+			}
+			if xb == nil {
+				continue
+			}
+			fs := flagStores(f, x)
+			for _, b := range f.Blocks {
+				if !xb.Dominates(b) {
+					continue
+				}
+				for _, succ := range b.Succs {
+					if succ.Dominates(b) && succ != b && inSameLoop(succ, b) && !xb.Dominates(succ) {
+						n++
+						ok := false
+						for _, st := range fs {
+							if st.Block().Dominates(b) {
+								ok = true
+							}
+						}
+						c.check(ok, "range-unset-dirty", "unsetInternal: descent below "+typeShort(x.Type()), p.Pos(posOf(b.Instrs[len(b.Instrs)-1], f)), "the node is marked dirty before the walk continues below it", "the walk to the fork point continues below this node without resetting its Flags: its cached hash hides what is cut below")
+					}
+				}
+			}
+		}
+	} else {
+		c.und("range-unset-dirty", "core/trie2.unsetInternal", "", "anchor not found")
+	}
+	if n < 3 {
+		c.und("range-unset-dirty", "core/trie2 range walkers", "", fmt.Sprintf("only %d descents found", n))
+	}
 }
